@@ -52,6 +52,7 @@ func checkC02(c *Ctx) {
 	r.Rule("C02.b", "constraint collection, type-variable collection and substitution visit every sub-expression on every path (TRAV)", 20)
 	r.Rule("C02.c", "closed forms of the numbering chain, anchor unifications and fresh instantiation", 15)
 	r.Rule("C02.d", "result annotation feeds the function's own type (declared and returned)", 2)
+	r.Rule("C02.e", "no unification obligation is dropped: every call result carrying a []UniRel is bound, returned or passed on", 40)
 	f := c.LoadFC("fc")
 	if f == nil {
 		return
@@ -132,6 +133,8 @@ func checkC02(c *Ctx) {
 			"has an explicit arm for every component-carrying constructor ("+strings.Join(K, ", ")+")",
 			"no explicit arm for "+strings.Join(missing, ", ")+": values of these constructors fall into the default, so their component types are never visited by this traversal")
 	}
+	// (e)
+	checkRelationsNotDropped(c, f)
 	// (b)
 	tv := newTravAn(c, f)
 	tv.checkTraversal("C02.b", "collectExprRel", []string{"collectBlock", "collectStmtRel", "collectSlice"}, 6)
